@@ -91,7 +91,7 @@ CLAIMED = {
              '(skool2asm keeps the literal address, skool2bin relocates it: documented, warned about), @bytes, @defb/@defs/@defw data directives, @bank, @remote, macro expansion of #PEEK itself, image macros, asm_mode 0 of skool2bin.',
         design='4 (C04)', technique=TECH + '; symbolic numerals through the real parser/writer/assembler; differential between the two tool chains'),
     'C20': dict(
-        text='(a) The real rzxplay.process_block frame loop is run on a symbolic machine state for one frame holding one instruction, per opcode slot (quick: every fourth slot of each table; thorough: all 1792) and playback flags 0-3: the fetch counter it '
+        text='(a) The real rzxplay.process_block frame loop is run on a symbolic machine state for one frame holding one instruction, per opcode slot (quick: every eighth slot of each table; thorough: all 1792) and playback flags 0-3: the fetch counter it '
              'reports (TraceLine {fc}) drops by exactly the M1 count of the instruction, the loop stops there, and the state after the frame boundary equals the Z80 reference step followed by the documented boundary rules '
              '(T reset; interrupt accepted when enabled; HALT: PC advanced first; flag 1: LD A,I/R resets bit 2 of F; flag 2: EI before a frame of 1-2 fetches blocks it). '
              '(b) write_rzx -> parse_rzx with symbolic fetch counters and port readings (1-8 frames, start index 0-2, Z80 and SZX snapshots): the frames parsed are the remaining frames written.',
